@@ -213,6 +213,44 @@ def add_redelivery(rng, sc, p=0.15):
     return k
 
 
+def gen_shared_arith(rng, vars_, mode):
+    """directed skeleton: an arithmetic sub-specification p1 shared by several predicates (bare, as left or right operand of
+    another arithmetic operator whose other operand may be a variable of the other i/o kind, under abs / unary minus); the i/o
+    sets of a shared node must not be polluted by one of its users. Returns (definition of p1, top formula using ['ref', 'p1'])"""
+    def term(d):
+        if d <= 0 or rng.random() < 0.4:
+            return ['var', rng.choice(vars_)]
+        op = rng.choice(['+', '-', '*', 'abs', 'neg'])
+        return [op, term(d - 1)] if op in ('abs', 'neg') else [op, term(d - 1), term(d - 1)]
+    t1 = term(2)
+    if t1[0] == 'var':
+        t1 = ['+', t1, ['var', rng.choice(vars_)]]
+    ref1 = ['ref', 'p1']
+
+    def use():
+        r_ = rng.random()
+        if r_ < 0.3:
+            return ref1
+        op = rng.choice(['+', '-', '*'])
+        other = ['var', rng.choice(vars_)] if rng.random() < 0.7 else ['const', rng.choice(sg.LATTICE)]
+        if r_ < 0.65:
+            return [op, ref1, other]
+        if r_ < 0.9:
+            return [op, other, ref1]
+        return [rng.choice(['abs', 'neg']), ref1]
+    def rhs():
+        return ['const', rng.choice(sg.LATTICE)] if rng.random() < 0.6 else ['var', rng.choice(vars_)]
+    preds = [['pred', rng.choice(sg.CMPS), use(), rhs()] for _ in range(rng.randint(2, 3))]
+    preds = [(q if rng.random() < 0.8 else ['pred', q[1], q[3], q[2]]) for q in preds]
+    top = preds[0]
+    for q in preds[1:]:
+        top = [rng.choice(['and', 'or', 'implies']), top, q] if rng.random() < 0.5 else [rng.choice(['and', 'or', 'implies']), q, top]
+    if rng.random() < 0.4:
+        w = rng.choice(['once', 'historically'] + ([] if mode == 'on' else ['always', 'eventually']))
+        top = [w, top]
+    return t1, top
+
+
 def iastl_safe(ast):
     """interface-aware semantics replace predicates by +-inf: a formula is free of inf - inf (NaN, outside the numeric envelope)
     when no predicate or arithmetic operator has a formula-valued operand and iff / xor do not occur"""
